@@ -61,7 +61,7 @@ def run(prop, tier, seed, scratch, t0):
         checker_cmd="tlc Proposal.tla > cases ; tlc -simulate Open.tla ; cdrv.test -test.run '^TestProposalCases$|^TestOpen$'",
     )
     assumptions = ["only decodable proposals are delivered (what does not survive the real encoder+decoder is counted as not decodable)",
-                   "two-party channels; the receiver's parent channel holds 5/5 of one asset"]
+                   "two-party channels; the receiver's parent channel holds I 9 / H 5 of one asset"]
     return vlib.finish(prop, tier, seed, t0, cov, mon, assumptions, drift=drift)
 
 
